@@ -164,7 +164,13 @@ def classify(rec, required=(), unwind_tag=None):
                 # a loop that the code itself bounds (batch size) ran past that bound: non-termination
                 loc = c.get("location") or {}
                 viol.append({"tags": [unwind_tag], "tag": unwind_tag, "description": f"{unwind_tag}: loop exceeds its own bound (does not terminate): {desc}",
-                             "function": c.get("function"), "file": loc.get("file"), "line": loc.get("line"), "category": cat})
+                             "function": c.get("function"), "file": loc.get("file"), "line": loc.get("line"), "category": cat, "nonterm": True})
+            elif "llvm.x86.sse2.pause" in desc or "spin_loop" in (c.get("function") or ""):
+                # std's futex locks reach their spin hint only on a CONTENDED lock; in a sequential execution
+                # the only possible holder is the calling thread itself: it waits for ever (self-deadlock)
+                loc = c.get("location") or {}
+                viol.append({"tags": ["C09"], "tag": "C09", "description": "C09: sequential execution spins on a contended std lock (only the calling thread itself can hold it: self-deadlock, does not terminate)",
+                             "function": c.get("function"), "file": loc.get("file"), "line": loc.get("line"), "category": cat, "nonterm": True})
             elif "unwinding assertion" in desc:
                 incon.append(f"unwinding bound too small: {desc} in {c.get('function')}")
             elif "VERIF-BOUND" in desc:
@@ -174,7 +180,9 @@ def classify(rec, required=(), unwind_tag=None):
                 loc = c.get("location") or {}
                 viol.append({"tags": m.group(1).split(",") if m else ["C08"], "tag": m.group(1) if m else "C08", "description": desc,
                              "function": c.get("function"), "file": loc.get("file"),
-                             "line": loc.get("line"), "category": cat})
+                             "line": loc.get("line"), "category": cat,
+                             # (the spin hint of std's locks is stubbed by a failing twin in the sync harnesses)
+                             "nonterm": desc.startswith("C09: sequential execution spins")})
         elif s == "UNDETERMINED":
             # only meaningful if nothing failed: then it is a solver/time problem
             pass
@@ -301,8 +309,12 @@ def native_playback(src, harness, test_src, real_map, logf, hang_is_repro=False)
             s = open(p).read()
             if f'#[path = "{priv}"]' in s:
                 open(p, "w").write(s.replace(f'#[path = "{priv}"]', f'#[path = "{hfile}"]'))
-    if hung and hang_is_repro and "Running" in txt:
-        return True, "native replay of the harness did not terminate within 300 s (the built test binary was running)"
+    if hang_is_repro:
+        if hung and "Running" in txt:
+            return True, "native replay of the harness did not terminate within 300 s (the built test binary was running)"
+        if re.search(r"test result:", txt):
+            return False, "native replay terminated (non-termination does not reproduce)"
+        return None, "playback could not be built or run"
     if re.search(r"test result: FAILED|panicked at", txt):
         mm = re.search(r"panicked at [^\n]*\n([^\n]*)", txt)
         return True, (mm.group(0) if mm else "test failed")
@@ -483,7 +495,7 @@ def replay_violation(prop, h, vs, src, target, scratch, hobj):
     info = {"property": prop, "harness": h, "failed_checks": vs, "how_to_replay": f"./check {prop} --replay {path}"}
     try:
         test_src = concrete_playback(src, target, h, hobj.timeout * 4, 48, os.path.join(scratch, f"cp_{short}.log"),
-                                     want=[("unwinding assertion" if "does not terminate" in y["description"] else y["description"][:60]) for y in vs])
+                                     want=[("unwinding assertion" if (y.get("nonterm") and not y["description"].startswith("C09: sequential execution spins")) else y["description"][:60]) for y in vs])
     except Exception as e:
         test_src = None
         info["playback_error"] = str(e)
@@ -491,7 +503,7 @@ def replay_violation(prop, h, vs, src, target, scratch, hobj):
         json.dump(info, open(path, "w"), indent=1)
         return False, path, "Kani produced no concrete assignment"
     info["kani_concrete_playback_test"] = test_src
-    ok, why = native_playback(src, h, test_src, False, os.path.join(scratch, f"pb_{short}.log"), hang_is_repro=bool(hobj.unwind_tag))
+    ok, why = native_playback(src, h, test_src, False, os.path.join(scratch, f"pb_{short}.log"), hang_is_repro=bool(hobj.unwind_tag) or any(y.get("nonterm") for y in vs))
     info["native_model_containers"] = {"reproduced": ok, "detail": why}
     ok2 = None
     if ok and hobj.real_map_replay:
